@@ -273,3 +273,6 @@ def run(ctx):
     ctx.rule("C11.f", "sub-binnings are fresh copies with only `_bins` replaced", 4)
     from rules import c07
     c07.check_binning_copies(ctx, "C11.f", m)
+
+    # shared with C09.a: integer indices reduce the dimension through _reduce_dimension (contents, errors2, binnings, names)
+    ctx.borrow("C09", ("_reduce_dimension:",), "C11.a", floor=3)
